@@ -241,6 +241,72 @@ func boundName(b int) string {
 	return fmt.Sprintf(" [preemptions<=%d]", b)
 }
 
+// poolHistoryScenario: ONE thread drives the pool through a history chosen step by step from
+// {Wait, let everything submitted so far finish WITHOUT waiting, Submit an instant task, Submit a
+// task that yields}: every such history up to the given length.  After each Wait everything
+// submitted before it must have finished; at the end every task has run exactly once and nothing
+// is left behind.  (Waits on an idle pool, tasks that finish while nobody waits, and rounds after
+// such rounds are histories the other drivers never produce.)
+func poolHistoryScenario(w, length, bound int) Scenario {
+	var label string
+	body := func() {
+		pool := flyt.NewWorkerPool(w)
+		var started, finished [8]core.Cell[int]
+		var vars []*core.Var[int]
+		for i := 0; i < length; i++ {
+			vars = append(vars, core.NewVar(fmt.Sprintf("taskvar%d", i), 0))
+		}
+		n := 0
+		var hist []byte
+		for step := 0; step < length; step++ {
+			op := "WQiy."[core.Choose(5)]
+			if op == '.' {
+				break
+			}
+			hist = append(hist, op)
+			switch op {
+			case 'W':
+				core.Logf("Wait call")
+				pool.Wait()
+				core.Logf("Wait ret")
+				for k := 0; k < n; k++ {
+					if f := finished[k].Get(); f != 1 {
+						core.Problem("history %s: Wait returned while task %d (submitted before it) has finished %d times", hist, k, f)
+					}
+					if v := vars[k].Load(); v != k+1 {
+						core.Problem("history %s: effect of task %d not visible after Wait", hist, k)
+					}
+				}
+			case 'Q':
+				core.WaitQuiescent()
+			default:
+				k, kind := n, op
+				n++
+				pool.Submit(func() {
+					started[k].Set(started[k].Get() + 1)
+					if kind == 'y' {
+						core.Yield()
+					}
+					vars[k].Store(k + 1)
+					finished[k].Set(finished[k].Get() + 1)
+				})
+			}
+		}
+		pool.Wait()
+		for k := 0; k < n; k++ {
+			if st, fi := started[k].Get(), finished[k].Get(); st != 1 || fi != 1 {
+				core.Problem("history %s: after the final Wait task %d has started %d / finished %d times, want exactly once", hist, k, st, fi)
+			}
+		}
+		pool.Close()
+		if live := core.WaitQuiescent(); len(live) > 0 {
+			core.Problem("history %s: after Wait+Close %d pool goroutine(s) never terminate: %s", hist, len(live), strings.Join(live, ", "))
+		}
+		label = string(hist)
+	}
+	return Scenario{Name: fmt.Sprintf("pool-history w=%d length<=%d", w, length) + boundName(bound), Bound: bound, Body: body, Check: stdCheck(func() string { return label })}
+}
+
 func genC12(tier string) []Scenario {
 	var out []Scenario
 	kinds := func(n int) []string { // all task-kind strings of length n
@@ -256,6 +322,13 @@ func genC12(tier string) []Scenario {
 	}
 	alt := func(n int) string { return strings.Repeat("iy", n)[:n] }
 	thorough := tier == "thorough"
+	for _, w := range []int{1, 2} {
+		if thorough {
+			out = append(out, poolHistoryScenario(w, 6, 2))
+		} else {
+			out = append(out, poolHistoryScenario(w, 5, 1))
+		}
+	}
 	ws := []int{1, 2, 0, -1}
 	if thorough {
 		ws = []int{1, 2, 3, 0, -1}
